@@ -42,14 +42,15 @@ pub fn wexpr(d: &mut Draw, atoms: &[&str], kname: Option<&str>, depth: u32) -> S
             let c = match d.below(3) {
                 0 => format!("({x} <: {y})"),
                 1 => format!("({x} == {y})"),
-                _ => format!("{x}[0]"),
+                _ if !x.starts_with('(') => format!("{x}[0]"),
+                _ => format!("({x} != {y})"),
             };
             format!("(if {c} ? {a} : {})", wexpr(d, atoms, kname, depth - 1))
         }
         10 => {
             let x = atom(d);
             // rotate left by one (W >= 4 everywhere)
-            if x.starts_with('(') { a } else { format!("{{{x}[W - 2:0], {x}[W - 1]}}") }
+            if x.starts_with('(') || x.contains('[') { a } else { format!("{{{x}[W - 2:0], {x}[W - 1]}}") }
         }
         _ => format!("({a} + 1)"),
     }
@@ -141,7 +142,7 @@ fn gen_dut(d: &mut Draw, j: usize, n_leaf: usize, classes: &mut Vec<String>) -> 
         let _ = writeln!(s, "            for i in 1..D {{\n                mem[i] = mem[i - 1] ^ mem[i];\n            }}");
     }
     let _ = writeln!(s, "        }}\n    }}");
-    let _ = writeln!(s, "    assign q = {};", wexpr(d, &["mem[D - 1]", "y1", "kk"], None, 2));
+    let _ = writeln!(s, "    assign q = {} ^ mem[D / 2];", wexpr(d, &["mem[D - 1]", "y1", "kk"], None, 2));
     let _ = writeln!(s, "    assign s = {};", wexpr(d, &["mem[0]", "z1", "y0", "kk"], Some("M"), 2));
     let _ = writeln!(s, "}}\n");
     s
